@@ -134,6 +134,9 @@ def scenarios():
         # the parent of -out exists already, with a mode of its own
         S.append(Scenario("privdir" + ("-rm" if rm else ""), out="priv/store_moq.go", rm=rm, pkg="priv",
                           fault="parent-private"))
+        # the usual layout: ./mocks already holds package mocks
+        S.append(Scenario("mocksdir" + ("-rm" if rm else ""), out="mocks/store_moq.go", rm=rm, pkg="mocks",
+                          fault="mocks-dir"))
         if not rm:
             # another package that happens to have the source package's name (and its own Item)
             # (without -skip-ensure the self-check line is the known finding explicit_same_pkg, D15)
@@ -219,6 +222,10 @@ def run_one(tools, base, sc, ref_cache):
             f.write('package store\n\nimport "example.com/dep"\n\nvar _ dep.T\n')
         run_env = C.goenv()
         run_env.pop("GOFLAGS", None)
+    if sc.fault == "mocks-dir":
+        os.makedirs(os.path.join(pkgdir, "mocks"))
+        with open(os.path.join(pkgdir, "mocks", "doc.go"), "w") as f:
+            f.write("// Package mocks holds generated mocks.\npackage mocks\n")
     if sc.fault == "parent-private":
         os.makedirs(os.path.join(pkgdir, "priv"))
         os.chmod(os.path.join(pkgdir, "priv"), 0o700)
@@ -241,11 +248,12 @@ def run_one(tools, base, sc, ref_cache):
                rc=rc, stdout=so, stderr=se, changed=diff(before, after), out_after=out_after,
                prior_content=prior_content, ref_rc=ref[0], ref_stdout=ref[1], ref_stdout_full=ref[1], root=root,
                out_matches_ref=(out_after == ref[1]) if (rc == 0 and outabs and ref[0] == 0) else None)
-    if sc.fault == "same-name-dest" and rc == 0:
+    if sc.fault in ("same-name-dest", "mocks-dir") and rc == 0:
         # the mock now lives in a different package: it must compile there and implement the interface
-        with open(os.path.join(root, "alt", "store", "zz_assert.go"), "w") as f:
-            f.write('package store\n\nimport src "example.com/l3/store"\n\nvar _ src.Store = &StoreMock{}\n')
-        b = subprocess.run(["go", "vet", "./alt/store/"], cwd=root, env=C.goenv(), stdout=subprocess.PIPE,
+        dest, dpkg = ("alt/store", "store") if sc.fault == "same-name-dest" else ("store/mocks", "mocks")
+        with open(os.path.join(root, dest, "zz_assert.go"), "w") as f:
+            f.write('package %s\n\nimport src "example.com/l3/store"\n\nvar _ src.Store = &StoreMock{}\n' % dpkg)
+        b = subprocess.run(["go", "vet", "./" + dest + "/"], cwd=root, env=C.goenv(), stdout=subprocess.PIPE,
                            stderr=subprocess.STDOUT, text=True, timeout=300)
         obs["dest_build"] = (b.returncode == 0)
         obs["dest_build_err"] = b.stdout[-600:]
@@ -287,7 +295,7 @@ def coq_case(o):
         entries.append((comps, "NDir"))
     if o["fault"] == "parent-is-file":
         entries.append((comps[:1], '(NFile "blocker")'))
-    if o["fault"] in ("same-name-dest", "parent-private"):
+    if o["fault"] in ("same-name-dest", "parent-private", "mocks-dir"):
         for i in range(1, len(comps)):
             entries.append((comps[:i], "NDir"))
     fs_items = ["(%s, %s)" % (C.coq_list([C.coq_str(c) for c in p]), n) for p, n in entries]
@@ -352,7 +360,7 @@ def observed_summary(o):
         if ch is not None:
             state = "dir" if ch[1] == "dir" else "absent"
         else:
-            existed = bool(o["prior"]) or o["fault"] in ("out-is-dir", "same-name-dest", "parent-private")
+            existed = bool(o["prior"]) or o["fault"] in ("out-is-dir", "same-name-dest", "parent-private", "mocks-dir")
             if o["fault"] == "parent-is-file":
                 state = "file:blocker"
             else:
